@@ -355,7 +355,11 @@ def pred_simple(c, out):
         if nw is None:
             continue
         w0 = X.sub(q, X.lat(cell, nw))
-        if not X.in_cell(cell, pbc, w0) or any(nw[k] and not pbc[k] for k in range(3)):
+        if any(nw[k] and not pbc[k] for k in range(3)):
+            # the searched position was moved by a lattice vector along a NON-periodic axis before the search
+            fails.append("probe %s: the position was wrapped along a non-periodic axis (offset %s) before matching" % (q, nw))
+            continue
+        if not X.in_cell(cell, pbc, w0):
             continue
         best, arg = nearest(c, w0, tol * tol)
         edge = any(m == c["cutoff"] ** 2 for p in c["pos"] for _, m in X.images_within(cell, pbc, w0, p, c["cutoff"] ** 2))
